@@ -35,6 +35,10 @@ def cases(draw, need_percolation=False, max_mobile=8):
     inv = nw.invmap(sl)
     pre, ene = draw(dt.site_data(len(sl)))
     preT, eneT = draw(dt.trans_data(jn, inv, ene))
+    # all rates very slow or very fast in 15% of the cases (absolute thresholds in the code would show up here)
+    ls = draw(st.sampled_from([0] * 16 + [-7, -8, -9, -10, -14, 9]))
+    if ls:
+        preT = [float("%.5e" % (x * 10. ** ls)) for x in preT]
     return {"recipe": rec, "chem": chem, "k": k, "closest": closest, "pre": pre, "ene": ene, "preT": preT, "eneT": eneT}
 
 
